@@ -7,6 +7,7 @@ CONSTANTS McDepth = 2
           GenChainOps = 3
           GenFuncCfgName = "c3"
           GenLenOps = 3
+          GenProdFull = TRUE
           GenPtr = TRUE
           SimMinDepth = 4
           SimMaxDepth = 4
